@@ -34,8 +34,9 @@ RULE = (
     "message or raises MessageDeserializationError'; findings are replayed without atheris."
 )
 ASSUMPTIONS = [
-    "length prefixes in generated streams are <= 64 KiB (resource exhaustion by huge prefixes / zlib bombs is out of "
-    "scope: denial of service, not desynchronisation)",
+    "length prefixes in generated streams are <= 64 KiB, plus enumerated honest frames of 70 KiB, 1 MiB and 9 MiB; "
+    "resource exhaustion by 4 GiB prefixes / zlib bombs is out of scope (denial of service, not desynchronisation)",
+    "'parsing terminates' is decided by process CPU time: decoding one frame must not burn 20 s of CPU",
     "in-memory TCP: ordered, lossless, arbitrary segmentation, strictly positive latency",
     "in client mode message classes whose legitimate handling closes or re-purposes the connection are not generated",
 ]
@@ -43,6 +44,8 @@ BUDGET_S = {'quick': 150, 'thorough': 1500}
 
 KINDS = ['server', 'peerP', 'peerPobf', 'peerD', 'peerDobf']
 MUTS = ['none', 'none', 'none', 'trunc', 'flip', 'lie', 'badstr', 'zlib', 'unknown', 'zero', 'random']
+ALL_MUTS = MUTS + ['huge']      # 'huge' only in the enumerated part (multi-megabyte bodies are expensive)
+HUGE_SIZES = [70 * 1024, 1024 * 1024 + 7, 9 * 1024 * 1024 + 3]
 ENDS = [None, None, None, 'eof', 'reset', 'partial-eof', 'partial-silence']
 
 SERVER_KEYS = [k for k in c01.KEYS if k.startswith('server:') and k.endswith(':Response')]
@@ -186,8 +189,46 @@ def build_frame(f, group):
         return struct.pack('<I', len(body)) + body, 'unknown'
     if mut == 'zero':
         return struct.pack('<I', 0), 'zero'
+    if mut == 'huge':
+        # honest length prefix, multi-megabyte body with an unknown code; a complete valid frame of this
+        # connection kind is embedded in the body (it must NOT be delivered: it is payload of the dropped frame)
+        code = _unused_code(group, width, a)
+        head = struct.pack('<B', code % 256) if width == 1 else struct.pack('<I', code)
+        size = HUGE_SIZES[b % len(HUGE_SIZES)]
+        inner = frame
+        body = head + bytes(1000 + a % 5000) + inner + bytes(max(0, size - len(head) - 1000 - a % 5000 - len(inner)))
+        return struct.pack('<I', len(body)) + body, 'huge'
     body = _prng(a, b, (a + b) % 64)
     return struct.pack('<I', len(body)) + body, 'random'
+
+
+DECODE_CPU_LIMIT_S = 20
+
+
+class _CpuLimitExceeded(BaseException):
+    pass
+
+
+class _cpu_limit:
+    """Raise _CpuLimitExceeded in the main thread after ``seconds`` of *process CPU time* (ITIMER_VIRTUAL)."""
+
+    def __init__(self, seconds):
+        self.seconds = seconds
+
+    def __enter__(self):
+        import signal
+
+        def fire(signum, frame):
+            raise _CpuLimitExceeded()
+        self.old = signal.signal(signal.SIGVTALRM, fire)
+        signal.setitimer(signal.ITIMER_VIRTUAL, self.seconds)
+        return self
+
+    def __exit__(self, *exc):
+        import signal
+        signal.setitimer(signal.ITIMER_VIRTUAL, 0)
+        signal.signal(signal.SIGVTALRM, self.old)
+        return False
 
 
 def _group(kind):
@@ -245,7 +286,7 @@ def _sanitise(case):
                         ok = False
             if not ok:
                 continue
-            mut = f.get('mut') if f.get('mut') in MUTS else 'none'
+            mut = f.get('mut') if f.get('mut') in ALL_MUTS else 'none'
             frames.append({'key': key, 'values': values, 'mut': mut,
                            'a': max(0, min(2 ** 16, int(f.get('a', 0)))), 'b': max(0, min(2 ** 16, int(f.get('b', 0)))),
                            'okey': (str(f.get('okey', '')) + '00000000')[:8]})
@@ -357,7 +398,8 @@ def run_case(case) -> CaseResult:
         built.append((data, applied))
         conn = _fresh_connection(kind)
         try:
-            msg = conn.decode_message_data(data)
+            with _cpu_limit(DECODE_CPU_LIMIT_S):
+                msg = conn.decode_message_data(data)
             expected.append(msg)
             causes.append('ok')
             if applied == 'none':
@@ -369,6 +411,12 @@ def run_case(case) -> CaseResult:
                     got = None
                 if got != want:
                     res.violate(f'C02/valid-frame-decoded-wrongly:{f["key"]}', f'{got} != {want}')
+        except _CpuLimitExceeded:
+            # "parsing terminates": decoding one frame of at most a few MiB burnt DECODE_CPU_LIMIT_S seconds of
+            # CPU time (process CPU time, independent of machine load) -- the stream part would never return
+            res.violate(f'C02/decoder-does-not-terminate:{applied}', f'{f["key"]} frame of {len(data)} bytes: '
+                        f'decode_message_data used more than {DECODE_CPU_LIMIT_S} s of CPU time; {data[:48].hex()}')
+            return res
         except MessageDeserializationError as exc:
             expected.append(None)
             cause = type(exc.__cause__).__name__ if exc.__cause__ is not None else 'None'
@@ -475,6 +523,10 @@ def run_case(case) -> CaseResult:
             read_timeout = 60.0
         n_before = len(delivered)
         rx_before = ep.received_total
+        if len(stream) > 200000:
+            # multi-megabyte frame: a handful of large TCP segments, the first cut inside the huge body
+            seg = [150000 + len(stream) % 1000, 700001]
+            ep.link.seg = seg
         ep.send(bytes(stream))
         n_chunks = (len(stream) // min(seg)) + 1 if seg else 1
         await asyncio.sleep(0.05 + n_chunks * (gap + 1e-6) * 1.5)
@@ -625,7 +677,22 @@ def run_case(case) -> CaseResult:
     return res
 
 
+def _huge_cases():
+    """A multi-megabyte frame with an honest prefix between valid frames, per connection kind and size."""
+    samples = {'server': ('server:GetUserStatus:Response', {'username': 'before', 'status': 1, 'privileged': False}),
+               'peerP': ('peer:PeerPlaceInQueueReply:Request', {'filename': 'before', 'place': 1}),
+               'peerPobf': ('peer:PeerPlaceInQueueReply:Request', {'filename': 'before', 'place': 1}),
+               'peerD': ('distributed:DistributedBranchLevel:Request', {'level': 5})}
+    for kind, (key, values) in samples.items():
+        for si in range(len(HUGE_SIZES)):
+            def fr(mut, b=0):
+                return {'key': key, 'values': values, 'mut': mut, 'a': 77, 'b': b, 'okey': '01020304'}
+            yield {'mode': 'net', 'kind': kind, 'frames': [fr('none'), fr('huge', si), fr('none'), fr('none')],
+                   'seg': None, 'gap': 0, 'end': None, 'bad_first': False, 'init_key': '0a0b0c0d'}
+
+
 def run_shard(ctx):
+    ctx.enumerate(_huge_cases())
     n_net = 450 if ctx.tier == 'quick' else 9000
     n_client = 50 if ctx.tier == 'quick' else 1500
     ctx.explore(case_strategy(), n_net)
